@@ -43,6 +43,8 @@ pub trait Controller : Send
     fn deadlock(&mut self, _blocked : &[(usize, Op)]) {}
     fn spawned(&mut self, _parent : usize, _child : usize) {}
     fn finished(&mut self, _tid : usize, _panicked : bool) {}
+    /*  asked at every scheduling point: true ends the run like a deadlock (a step budget against endless loops) */
+    fn abort(&mut self) -> bool { false }
 }
 
 pub struct ShimAbort;
@@ -133,7 +135,12 @@ impl Sched
     fn dispatch(&mut self)
     {
         let enabled = self.enabled();
-        if enabled.len() == 0
+        if self.ctl.abort()
+        {
+            self.aborted = true;
+            self.active = usize::MAX;
+        }
+        else if enabled.len() == 0
         {
             let blocked : Vec<(usize, Op)> = self.threads.iter().enumerate()
                 .filter(|(_, th)| th.state != St::Finished)
